@@ -38,7 +38,7 @@ Record state := mkS {
   reinst : list N;         (* ghost: answered probes whose reset+addAliveEp goroutine has not run yet *)
   reqlog : list (N * N * Z); (* ghost: probe requests (endpoint, adapter, time), newest first *)
   probelog : list N;       (* ghost: adapters handed out as probe by SelectAdapterProxy *)
-  shrunk : bool            (* ghost: some refresh dropped an endpoint that had an adapter *)
+  shrunk : bool            (* ghost: some refresh dropped (from both registry lists) an endpoint that had an adapter *)
 }.
 
 Definition T0 : Z := 1700000000.
@@ -130,7 +130,8 @@ Inductive label :=
 | SelPick (e ai : N)                   (* SelectAdapterProxy returned (adapter ai of endpoint e, false) *)
 | SelNone                              (* SelectAdapterProxy returned nil *)
 | Reinstate (ai : N)                   (* the goroutine started after an answered probe: reset + addAliveEp *)
-| Refresh (l : list N).                (* refreshEndpoints with the registry returning l (host order, no duplicates) *)
+| Refresh (l inact : list N)           (* refreshEndpoints: the registry returns l as active (host order, no duplicates), inact as inactive *)
+| Late (ai : N).                       (* a reply on adapter ai arrives after its caller's deadline: AdapterProxy.Recv finds no waiter *)
 
 Definition w_pcalls v s := mkS (now s) (reg s) (objs s) (att s) (active s) (sel s) (probeq s) (pset s) v (reinst s) (reqlog s) (probelog s) (shrunk s).
 Definition w_reinst v s := mkS (now s) (reg s) (objs s) (att s) (active s) (sel s) (probeq s) (pset s) (pcalls s) v (reqlog s) (probelog s) (shrunk s).
@@ -188,17 +189,19 @@ Definition step (s : state) (l : label) : option state :=
         Some (w_rot (active s1 ++ [aep a]) (add_set (aep a) (sel s1)) s1)
       else None
     end
-  | Refresh l =>
+  | Refresh l inact =>
     if negb (sorted_strict l) then None else
     match l with
     | [] => Some s
     | _ :: _ =>
       if list_eqN l (reg s) then Some s else
-      let att' := filter (fun p => memN (fst p) l) (att s) in
+      (* adapters of endpoints in neither list are closed and detached; those of inactive endpoints are kept *)
+      let att' := filter (fun p => memN (fst p) (l ++ inact)) (att s) in
       let rot := filter (rot_ok s att') l in
       Some (mkS (now s) l (objs s) att' rot rot (probeq s) (pset s) (pcalls s) (reinst s) (reqlog s) (probelog s)
-                (shrunk s || existsb (fun p => negb (memN (fst p) l)) (att s)))
+                (shrunk s || existsb (fun p => negb (memN (fst p) (l ++ inact))) (att s)))
     end
+  | Late ai => match get ai s with Some _ => Some s | None => None end   (* no effect on the health record *)
   end.
 
 Fixpoint run (s : state) (ls : list label) : option state :=
@@ -265,11 +268,12 @@ Fixpoint list_eqNN (a b : list (list N)) : bool :=
   | [], [] => true | x :: a', y :: b' => list_eqN x y && list_eqNN a' b' | _, _ => false end.
 
 (* observed: compact vector with the three selectors separately, optionally the full adapter table *)
-Record obs := mkO { o_st : N; o_q : N; o_pset : N; o_rr : N; o_ch : N; o_mh : N; o_reg : N; o_act : N; o_full : option (list (list N)) }.
+Record obs := mkO { o_st : N; o_q : N; o_pset : N; o_rr : N; o_ch : N; o_mh : N; o_reg : N; o_act : N; o_att : N; o_full : option (list (list N)) }.
 
 Definition obs_ok (s : state) (o : obs) : bool :=
   list_eqN (compact s) [o_st o; o_q o; o_pset o; o_rr o; o_reg o; o_act o]
   && N.eqb (o_ch o) (o_rr o) && N.eqb (o_mh o) (o_rr o)
+  && N.eqb (o_att o) (mask (map fst (att s)))          (* which endpoints have a cached adapter (epList) *)
   && match o_full o with None => true | Some f => list_eqNN (full s) f end.
 
 (* one trace entry: the labels the implementation step corresponds to (a real call is selection + outcome
